@@ -13,14 +13,17 @@
 //! structured buffer, texture, static, groupshared, cbuffer member), calling 0-2 earlier helpers (closed sets mix
 //! both lane intrinsics with several globals), sometimes through a default argument on the DEFINITION that reads a
 //! lane intrinsic and a global, sometimes inside a namespace; 0-2 static globals initialised from a lane intrinsic or
-//! a helper call (the requirement runs through a global's entry of the table); compute pipeline (2 of 3) or mesh +
-//! pixel pipeline (1 of 3) where one or two helpers call SetMeshOutputCounts (`MeshOutput` next to the lane kinds
-//! and the globals); declarations shuffled; the entry point reaches most helpers.
+//! a helper call (the requirement runs through a global's entry of the table); compute pipeline (2 of 4), mesh + pixel
+//! pipeline (1 of 4) where one or two helpers call SetMeshOutputCounts (`MeshOutput` next to the lane kinds and the
+//! globals), or task + mesh + pixel pipeline (1 of 4) where the task shader or a helper of it calls DispatchMesh
+//! (`PayloadOutput` + `MeshGridProperties` next to the lane kinds and the globals); declarations shuffled; the entry
+//! point reaches most helpers.
 use crate::util::Rng;
 
 pub struct WaveShape {
     pub helpers: usize,
     pub mesh: bool,
+    pub task: bool,
     pub lane_index: usize,
     pub lane_count: usize,
     pub defaults: usize,
@@ -28,7 +31,10 @@ pub struct WaveShape {
 }
 
 pub fn wave_program(rng: &mut Rng) -> (String, WaveShape) {
-    let mesh = rng.chance(1, 3);
+    // 0, 1: compute; 2: mesh + pixel; 3: task + mesh + pixel (DispatchMesh: PayloadOutput + MeshGridProperties)
+    let kind = rng.below(4);
+    let mesh = kind == 2;
+    let task = kind == 3;
     let nglob = rng.range(3, 7) as usize;
     let mut decls: Vec<String> = Vec::new();
     let mut reads: Vec<String> = Vec::new();
@@ -69,7 +75,7 @@ pub fn wave_program(rng: &mut Rng) -> (String, WaveShape) {
         decls.push(format!("cbuffer Params\n{{\n{}}}\n", cb_members.concat()));
     }
     let nh = rng.range(3, 9) as usize;
-    let mut shape = WaveShape { helpers: nh, mesh, lane_index: 0, lane_count: 0, defaults: 0, init_globals: 0 };
+    let mut shape = WaveShape { helpers: nh, mesh, task, lane_index: 0, lane_count: 0, defaults: 0, init_globals: 0 };
     // helper names with their qualification; helper i may call helpers < i only (acyclic)
     let mut names: Vec<String> = Vec::new();
     let mut defs: Vec<String> = Vec::new();
@@ -147,8 +153,11 @@ pub fn wave_program(rng: &mut Rng) -> (String, WaveShape) {
         decls.swap(k, j);
     }
     let mut src = String::new();
-    if mesh {
+    if mesh || task {
         src.push_str("struct Vert\n{\n    float4 position : SV_Position;\n    float2 uv : TEXCOORD0;\n};\n");
+    }
+    if task {
+        src.push_str("struct TaskPayload\n{\n    uint start_location;\n};\ngroupshared TaskPayload lds_payload;\n");
     }
     src.push_str(&decls.concat());
     src.push_str("RWByteAddressBuffer g_result;\n");
@@ -166,7 +175,22 @@ pub fn wave_program(rng: &mut Rng) -> (String, WaveShape) {
         let j = rng.below(k as u64 + 1) as usize;
         calls.swap(k, j);
     }
-    if mesh {
+    if task {
+        // DispatchMesh inside a helper that also reads a lane intrinsic and a global (half of the programs) or in the
+        // entry point itself: PayloadOutput and MeshGridProperties next to the lane kinds and the globals
+        let extra = match rng.below(3) { 0 => " + WaveGetLaneCount()".to_string(), 1 => " + WaveGetLaneIndex()".to_string(), _ => String::new() };
+        let read = if rng.chance(1, 2) { format!(" + {}", rng.pick(&reads)) } else { String::new() };
+        let via_helper = rng.chance(1, 2);
+        if via_helper {
+            src.push_str(&format!("void launch(uint n)\n{{\n    lds_payload.start_location = n{}{};\n    DispatchMesh(4u, 1u, 1u, lds_payload);\n}}\n", extra, read));
+        }
+        let tail = if via_helper { "    launch(r);\n".to_string() } else { format!("    lds_payload.start_location = r{}{};\n    DispatchMesh(4u, 1u, 1u, lds_payload);\n", extra, read) };
+        src.push_str(&format!(
+            "[numthreads(64, 1, 1)]\nvoid ts(uint3 tid : SV_DispatchThreadID)\n{{\n    uint r = {};\n    g_result.Store(tid.x * 4, r);\n{}}}\n[numthreads(3, 1, 1)]\n[outputtopology(\"triangle\")]\nvoid ms(uint3 tid : SV_DispatchThreadID, in payload TaskPayload data, out vertices Vert v[3], out indices uint3 t[1])\n{{\n    SetMeshOutputCounts(3, 1);\n    Vert o;\n    o.position = float4(data.start_location, 0, 0, 1);\n    o.uv = float2(0, 0);\n    v[tid.x] = o;\n    t[0] = uint3(0, 1, 2);\n}}\nfloat4 ps() : SV_Target0\n{{\n    return float4(0, 0, 0, 1);\n}}\nPipeline P\n{{\n    TaskShader = ts;\n    MeshShader = ms;\n    PixelShader = ps;\n}}\n",
+            calls.join(" + "),
+            tail
+        ));
+    } else if mesh {
         src.push_str(&format!(
             "[numthreads(3, 1, 1)]\n[outputtopology(\"triangle\")]\nvoid ms(uint3 tid : SV_DispatchThreadID, out vertices Vert v[3], out indices uint3 t[1])\n{{\n    uint r = {};\n    g_result.Store(tid.x * 4, r);\n    Vert o;\n    o.position = float4(0, 0, 0, 1);\n    o.uv = float2(0, 0);\n    v[tid.x] = o;\n    t[0] = uint3(0, 1, 2);\n}}\nfloat4 ps() : SV_Target0\n{{\n    return float4(0, 0, 0, 1);\n}}\nPipeline P\n{{\n    MeshShader = ms;\n    PixelShader = ps;\n}}\n",
             calls.join(" + ")
